@@ -1,0 +1,44 @@
+//go:build verif
+
+package rpc
+
+import (
+	"net/http"
+	"sync"
+
+	"golang.org/x/net/context"
+	"google.golang.org/grpc"
+)
+
+// verification hook: the JSON-RPC access gate is a closure built inside
+// JSONRPCServer.Listen; a conformance harness needs to serve requests carrying
+// arbitrary remote addresses through exactly that handler.
+
+var verifJrpcHandlers sync.Map // *JSONRPCServer -> http.Handler
+
+func verifCaptureHandler(j *JSONRPCServer, h http.Handler) {
+	verifJrpcHandlers.Store(j, h)
+}
+
+// VerifHandler returns the HTTP handler (gate + JSON-RPC dispatch, cors wrapped)
+// that the last Listen call of this server passed to http.Serve, or nil.
+func (j *JSONRPCServer) VerifHandler() http.Handler {
+	if v, ok := verifJrpcHandlers.Load(j); ok {
+		return v.(http.Handler)
+	}
+	return nil
+}
+
+// VerifJrpcHandler is VerifHandler for the JSON-RPC server owned by r.
+func (r *RPC) VerifJrpcHandler() http.Handler {
+	if r.japi == nil {
+		return nil
+	}
+	return r.japi.VerifHandler()
+}
+
+// VerifGrpcAuth runs the gRPC access gate for a call of fullMethod whose peer is
+// taken from ctx, exactly as the unary interceptor installed by NewGRpcServer does.
+func VerifGrpcAuth(ctx context.Context, fullMethod string) error {
+	return auth(ctx, &grpc.UnaryServerInfo{FullMethod: fullMethod})
+}
